@@ -185,7 +185,8 @@ struct o3 {
 					for (unsigned char ch : d) if (!(hexa ? isxdigit(ch) : isdigit(ch))) return fail("numeric-entity", "malformed numeric entity", i);
 					// a numeric character reference must denote a character: a Unicode scalar value (no surrogate half, high or low,
 					// nothing above U+10FFFF) that is not a C0 control other than TAB/LF/CR
-					{ unsigned long cp = d.size() > 8 ? 0xFFFFFFFFul : strtoul(d.c_str(), 0, hexa ? 16 : 10);
+					{ std::string sig = d; while (sig.size() > 1 && sig[0] == '0') sig.erase(0, 1);      // leading zeros do not change the number
+					  unsigned long cp = sig.size() > 8 ? 0xFFFFFFFFul : strtoul(sig.c_str(), 0, hexa ? 16 : 10);
 					  if (cp > 0x10FFFF || (cp >= 0xD800 && cp <= 0xDFFF) || (cp < 0x20 && cp != 9 && cp != 10 && cp != 13)) return fail("numeric-entity", "numeric entity &#" + name.substr(1) + "; does not denote a character", i); }
 					shape += 'N';
 				} else {
@@ -198,11 +199,11 @@ struct o3 {
 			if (c != '<') { i++; if (shape.empty() || shape[shape.size() - 1] != 't') shape += 't'; continue; }
 			if (f.compare(i, 4, "<!--") == 0) {
 				if (!s.comments) return fail("comment", "comment although not allowed", i);
-				size_t e;
-				if (f.compare(i + 4, 1, ">") == 0) e = i + 5; else if (f.compare(i + 4, 2, "->") == 0) e = i + 6;
-				else { size_t a = f.find("-->", i + 4), b = f.find("--!>", i + 4); if (a == std::string::npos && b == std::string::npos) return fail("comment", "unterminated comment swallows the rest", i); e = (b == std::string::npos || (a != std::string::npos && a < b)) ? a + 3 : b + 4; }
-				// conditional-comment look-alikes
-				std::string body = f.substr(i + 4, e - i - 4);
+				size_t e = 0, body_end;
+				if (f.compare(i + 4, 1, ">") == 0) { e = i + 5; body_end = i + 4; } else if (f.compare(i + 4, 2, "->") == 0) { e = i + 6; body_end = i + 4; }
+				else { size_t a = f.find("-->", i + 4), b = f.find("--!>", i + 4); if (a == std::string::npos && b == std::string::npos) return fail("comment", "unterminated comment swallows the rest", i); bool use_a = (b == std::string::npos || (a != std::string::npos && a < b)); e = use_a ? a + 3 : b + 4; body_end = use_a ? a : b; }
+				// conditional-comment look-alikes: "[if" and a '>' inside the comment text (the terminator's own '>' does not count)
+				std::string body = f.substr(i + 4, body_end - i - 4);
 				if (body.find("[if") != std::string::npos && body.find('>') != std::string::npos) return fail("comment", "conditional comment", i);
 				shape += 'C'; i = e; continue;
 			}
